@@ -676,3 +676,28 @@ pub fn run_regressions(ctx: &Ctx, rep: &mut Report, replay: &dyn Fn(&Value) -> R
         }
     }
 }
+
+/// Run `f` with the process's stdout (fd 1) pointed at /dev/null: html5ever's
+/// `profile: true` option prints timing tables with println!, which must stay
+/// out of the VIOLATION-line channel.  Nothing else prints while checks run.
+pub fn with_stdout_silenced<T>(f: impl FnOnce() -> T) -> T {
+    use std::io::Write;
+    let _ = std::io::stdout().flush();
+    unsafe {
+        let saved = libc::dup(1);
+        let devnull = libc::open(b"/dev/null\0".as_ptr() as *const libc::c_char, libc::O_WRONLY);
+        if saved >= 0 && devnull >= 0 {
+            libc::dup2(devnull, 1);
+        }
+        let r = f();
+        let _ = std::io::stdout().flush();
+        if saved >= 0 {
+            libc::dup2(saved, 1);
+            libc::close(saved);
+        }
+        if devnull >= 0 {
+            libc::close(devnull);
+        }
+        r
+    }
+}
